@@ -395,6 +395,7 @@ func TestCheck(t *testing.T) {
 	r.Require(r.Pick(2500, 10000), r.Pick(1500, 6000))
 	r.Assume("the quantifier 'all call sites that can reach raw key bytes' is a statement about program text; this check covers the output channels the workload drives (listed in operations_exercised) and says nothing about code the workload does not reach")
 	r.Assume("fs key back end only (vault / azure / external back ends are not exercised); keys are EC P-256 as the node creates them, plus one RSA-2048 and one Ed25519 key imported into the key directory and linked through KeyStore.Link")
+	r.Assume("kid life cycle: re-pointing a kid to another VERSION of a key name is observed on a second key store - the real crypto.Crypto over the real validating wrapper and a real SQL storage engine - whose leaf back end is an in-memory versioned store owned by the harness (the fs back end ignores versions; Vault / Azure are not exercised); verdicts while changes and users run concurrently only demand a key the kid designated at some point of the run, verdicts after all calls returned demand the last one")
 	r.Assume("reads of files outside the key directory are observed through inotify on decoy key files and through the key that a successful call used; databases the node legitimately writes to (sqlite.db*, *.db, events/) are compared by existence only")
 
 	h := &harness{t: t, r: r, can: newCanary(), seen: map[[12]byte]struct{}{}, stats: map[string]*scanStats{}, ops: map[string]int{}, jwkOutcomes: map[string]string{},
@@ -440,9 +441,7 @@ func TestCheck(t *testing.T) {
 	h.scan("iam-flows")
 	h.phaseGoAPI(n1)
 	h.phaseJWKHeaderFamilies(n1)
-	if os.Getenv("C03_SKIP_LC") == "" {
-		h.phaseKidLifecycle(n1)
-	}
+	h.phaseKidLifecycle(n1)
 	h.scan("go-api")
 	n2 := h.phaseDIDNuts(verbosity, env, namer)
 	h.scan("did-nuts")
